@@ -27,6 +27,23 @@ NAN_BITS = [0x7FF8000000000000, 0x7FF8000000000001, 0xFFF8000000000000, 0x7FF400
 ZERO_ROW = "C02:zero-row-screen"
 
 
+# deterministic corpus, run first on every invocation
+CORPUS = [
+    # known finding C02:zero-row-screen: what both hold-out functions return for fraction 0
+    {"kind": "corpus-zero-row", "cycles": 1,
+     "raw": dict(ctrl="control", arity=2, tnames=[], tdoses=[], snames=[], pnames=[], obs=[], mask=[], tmap=None, smap=None)},
+    {"kind": "corpus-zero-row-with-mappings", "cycles": 2,
+     "raw": dict(ctrl="", arity=2, tnames=[], tdoses=[], snames=[], pnames=[], obs=[], mask=[],
+                 tmap=(["a", "b", "control"], [1.0, 2.0, 0.0], [0, 1, -1]), smap=(["s0", "s1"], [0, 1]))},
+    # DESIGN section 7 #1 shaped screen: the training half after a split carries a strict-superset mapping
+    {"kind": "corpus-superset", "cycles": 3,
+     "raw": dict(ctrl="control", arity=2, tnames=[["b", "c"], ["b", "d"], ["c", "d"], ["b", "c"]],
+                 tdoses=[[1.0, 1.0], [1.0, 1.0], [1.0, 1.0], [1.0, 1.0]], snames=["s1", "s1", "s2", "s2"],
+                 pnames=["p1", "p1", "p2", "p2"], obs=[0.1, 0.2, 0.3, 0.4], mask=[True, True, False, False],
+                 tmap=(["a", "b", "c", "d"], [1.0, 1.0, 1.0, 1.0], [0, 1, 2, 3]), smap=(["s0", "s1", "s2"], [0, 1, 2]))},
+]
+
+
 def unobserved_counts(s):
     n_obs = n_un = 0
     for plate in s.plates:
@@ -223,8 +240,12 @@ def run(ctx, res):
     tmp = tempfile.mkdtemp(prefix="verif_c02_")
     lines, expect, cases, where = [], [], [], []
     try:
-        for t in range(n_cases):
-            case = gen_case(rng, n_max)
+        for t in range(-len(CORPUS), n_cases):
+            if t < 0:
+                # fixed corpus first: the zero-row witness (hold-out with fraction 0) is exercised on every run
+                case = {"kind": CORPUS[t]["kind"], "raw": dict(CORPUS[t]["raw"]), "cycles": CORPUS[t]["cycles"]}
+            else:
+                case = gen_case(rng, n_max)
             case["obs_bits"] = obs_bits_list(case["raw"])
             raw = case["raw"]
             res.evaluations += 1
